@@ -14,6 +14,9 @@ use report::Report;
 static GLOBAL: alloc::Counting = alloc::Counting;
 use serde_json::Value;
 
+/// where the result goes (the C01 watchdog writes it when a call does not return)
+pub static OUT_PATH: std::sync::OnceLock<String> = std::sync::OnceLock::new();
+
 pub struct Outcome {
     pub report: Report,
     pub rule: String,
@@ -35,6 +38,7 @@ fn main() {
             let id = args[2].as_str();
             let tier = args[3].as_str();
             let out = args.get(4).cloned().unwrap_or_else(|| "/dev/stdout".into());
+            let _ = OUT_PATH.set(out.clone());
             let thorough = tier == "thorough";
             let t0 = std::time::Instant::now();
             let Some(o) = props::run(id, thorough) else {
